@@ -45,6 +45,7 @@ type TCPEnd struct {
 	eof      bool // peer's FIN has arrived
 	reset    bool
 	closed   bool // closed locally
+	held     bool // accepted by the program (it holds a descriptor for it until it closes it)
 	wclosed  bool // write side shut down locally (half-close): the peer sees end of stream, this end still reads
 	rdl, wdl time.Time
 	lastArr  time.Time
@@ -426,9 +427,30 @@ func (o *acceptOp) Do() {
 		o.err = &net.OpError{Op: "accept", Net: "tcp", Err: net.ErrClosed}
 		return
 	}
+	if n := o.l.n; n.MaxProxyTCPConns > 0 && n.openProxyTCP() >= n.MaxProxyTCPConns {
+		// the process is out of descriptors for connections: accept fails, the connection stays in the backlog
+		n.Fired["accept-emfile"]++
+		n.event("tcp-accept-error", "", "", 0, "emfile")
+		o.err = &net.OpError{Op: "accept", Net: "tcp", Err: syscall.EMFILE}
+		return
+	}
 	o.e = o.l.pending[0]
+	o.e.held = true
 	o.l.pending = o.l.pending[1:]
 	o.l.n.event("tcp-accept", o.e.Remote.String(), o.e.Local.String(), o.e.ID, "")
+}
+
+// openProxyTCP counts the connection ends the program holds and has not closed (its descriptors for connections).
+func (n *Net) OpenProxyTCP() int { return n.openProxyTCP() }
+
+func (n *Net) openProxyTCP() int {
+	c := 0
+	for _, e := range n.Conns {
+		if e.Proxy && !e.closed && (e.Dialer || e.held) {
+			c++
+		}
+	}
+	return c
 }
 func (o *acceptOp) OpName() string { return "accept" }
 
